@@ -90,13 +90,13 @@ def run(pid, tier):
                   event={k: v for k, v in ev.items() if k not in ('probes',)}, signature='knuth:%s:%s:%s' % (ev.get('fam'), ev.get('ft'), ev.get('params')))
     # BTPE (Binomial, n min(p,1-p) >= 10), pointwise: region-2 acceptance fraction = exact pmf ratio, region-1 triangle map
     bt = wd / 'btpe.ndjson'
-    r6 = tlc('MCBtpe', 'MCBtpe.cfg', pid, 'btpe_cases', workers=1, timeout=1200, heap='2g',
+    r6 = tlc('MCBtpe', 'MCBtpe.cfg', pid, 'btpe_cases', workers=1, timeout=1200, heap='2g', env={'TIER': tier},
              pipe_to=[str(RDV), 'btpe-drive', '--out', str(bt)])
     require_ok(r6, 'MCBtpe')
     s6 = json.loads(r6.consumer_out.strip().splitlines()[-1])
     if s6['events'] < 120:
         raise ToolError('btpe-drive: too few events: %s' % s6)
-    r7 = tlc('TraceBtpe', 'TraceBtpe.cfg', pid, 'btpe_trace', trace_mode=True, env={'TRACE': bt}, timeout=1200, heap='4g')
+    r7 = tlc('TraceBtpe', 'TraceBtpe.cfg', pid, 'btpe_trace', trace_mode=True, env={'TRACE': bt, 'TIER': tier}, timeout=1200, heap='4g')
     require_ok(r7, 'TraceBtpe')
     if r7.rejected or r7.violated:
         raise ToolError('btpe trace not consumed: %s' % (r7.rejected or r7.violated))
@@ -110,13 +110,13 @@ def run(pid, tier):
     o.samples.append({'kind': 'BTPE region 2: measured acceptance prefix', 'event': json.loads(blines[0])})
     # H2PE (Hypergeometric, mode >= 10 above the lower end), pointwise: region-1 acceptance prefix = exact pmf ratio
     h2 = wd / 'h2pe.ndjson'
-    r8 = tlc('MCH2pe', 'MCH2pe.cfg', pid, 'h2pe_cases', workers=1, timeout=1200, heap='2g',
+    r8 = tlc('MCH2pe', 'MCH2pe.cfg', pid, 'h2pe_cases', workers=1, timeout=1200, heap='2g', env={'TIER': tier},
              pipe_to=[str(RDV), 'btpe-drive', '--out', str(h2)])
     require_ok(r8, 'MCH2pe')
     s8 = json.loads(r8.consumer_out.strip().splitlines()[-1])
     if s8['events'] < 150:
         raise ToolError('btpe-drive (H2PE): too few events: %s' % s8)
-    r9 = tlc('TraceBtpe', 'TraceBtpe.cfg', pid, 'h2pe_trace', trace_mode=True, env={'TRACE': h2}, timeout=1200, heap='4g')
+    r9 = tlc('TraceBtpe', 'TraceBtpe.cfg', pid, 'h2pe_trace', trace_mode=True, env={'TRACE': h2, 'TIER': tier}, timeout=1200, heap='4g')
     require_ok(r9, 'TraceBtpe (H2PE)')
     if r9.rejected or r9.violated:
         raise ToolError('h2pe trace not consumed: %s' % (r9.rejected or r9.violated))
@@ -130,12 +130,12 @@ def run(pid, tier):
     o.samples.append({'kind': 'H2PE region 1: measured acceptance prefix', 'event': json.loads(hlines[0])})
     # Poisson PD (lambda >= 12), steps S / Q pointwise: after a normal deviate with floor k < l the accepting uniform words are a suffix
     pdf = wd / 'pd.ndjson'
-    r10 = tlc('MCPd', 'MCPd.cfg', pid, 'pd_cases', workers=1, timeout=1200, heap='2g', pipe_to=[str(RDV), 'btpe-drive', '--out', str(pdf)])
+    r10 = tlc('MCPd', 'MCPd.cfg', pid, 'pd_cases', workers=1, timeout=1200, heap='2g', env={'TIER': tier}, pipe_to=[str(RDV), 'btpe-drive', '--out', str(pdf)])
     require_ok(r10, 'MCPd')
     s10 = json.loads(r10.consumer_out.strip().splitlines()[-1])
     if s10['events'] < 100:
         raise ToolError('btpe-drive (PD): too few events: %s' % s10)
-    r11 = tlc('TraceBtpe', 'TraceBtpe.cfg', pid, 'pd_trace', trace_mode=True, env={'TRACE': pdf}, timeout=1200, heap='4g')
+    r11 = tlc('TraceBtpe', 'TraceBtpe.cfg', pid, 'pd_trace', trace_mode=True, env={'TRACE': pdf, 'TIER': tier}, timeout=1200, heap='4g')
     require_ok(r11, 'TraceBtpe (PD)')
     if r11.rejected or r11.violated:
         raise ToolError('pd trace not consumed: %s' % (r11.rejected or r11.violated))
